@@ -570,6 +570,13 @@ def run(ctx):
              'modifies the payload object it is given', floor=6)
     from .c01 import r2b_non_destructive
     r2b_non_destructive(ctx, rid='C02.R11')
+    ctx.rule('C01.R3', 'every bytes leaf travels as its own attachment: one '
+             'append per leaf, the placeholder numbered by the appends made '
+             'so far, and the decoder indexes by that number - otherwise a '
+             'payload with equal or repeated blobs does not arrive as sent '
+             '(shared rule)', floor=5)
+    from .c01 import r3_placeholder
+    r3_placeholder(ctx)
     ctx.rule('C02.R10', 'no swapped arguments at resolved in-package calls',
              floor=1)
     r10_swapped(ctx)
